@@ -79,7 +79,7 @@ fn apply_diff_map<const N: usize, Key, Diff, Target, Name, Mapping>(
 
 			// Our diff can take four forms:
 			// Add(b):     We put the name in and further apply diffs of members.
-			// Remove(a):  We remove it and do not further check any members. // TODO: maybe impl this further check as well?
+			// Remove(a):  We check the diffs of the members against the members, then remove it together with them.
 			// Edit(a, b): We change the current node and further apply diffs of members.
 			// None:       We apply diffs of members.
 			let action = diff.get_node_info();
@@ -101,8 +101,11 @@ fn apply_diff_map<const N: usize, Key, Diff, Target, Name, Mapping>(
 						.change_name(target_namespace, Some(a), None)
 						.with_context(|| anyhow!("cannot apply action {action:?} with same key {key:?}"))?;
 
-					// TODO: consider if we'd instead want to run the children as well
-					//  most likely not, since it hits performance
+					// The entry goes away together with its members. What the diff states about the javadoc and
+					// the members of the removed entry is still checked against the target (a stated old value
+					// that does not match means the diff was made against something else); the result is dropped.
+					apply_child(diff, target)
+						.with_context(|| anyhow!("cannot apply action {action:?} with same key {key:?}: the diff below the removed entry does not fit the target"))?;
 
 					// Not storing it is a removal
 				},
